@@ -38,11 +38,16 @@ Definition E_NA : N := 3.         (* not a call on this reader / not offered by 
 
 (** What an operation means for reader [r] according to the reader API: does it attempt a
     collection, is the collected data delivered (to the caller / the exporter) or is the
-    delivery skipped because the collection reported an error; is the reader shut down
-    afterwards; what does the call return. *)
+    delivery skipped; is the reader shut down afterwards; what does the call return.
+    [hasdata]: the collection produces at least one data point for this reader (any instrument).
+
+    Interval export, ForceFlush and the final collection of Shutdown of a periodic reader
+    (collectAndExport and Shutdown, after fixes b162dd7 and e0f719a): when the collection reports a
+    callback error the data it produced is exported all the same (nothing is exported when it
+    produced nothing) and the call returns the error. *)
 Inductive cres := CNone | CDelivered | CDropped.
 
-Definition attempt (rc : rcfg) (r : nat) (down err : bool) (o : op) : cres * bool * N :=
+Definition attempt (rc : rcfg) (r : nat) (down err hasdata : bool) (o : op) : cres * bool * N :=
   match o with
   | CollectR r' =>
       if Nat.eqb r' r
@@ -53,7 +58,7 @@ Definition attempt (rc : rcfg) (r : nat) (down err : bool) (o : op) : cres * boo
       if Nat.eqb r' r
       then match rk rc with
            | RPeriodic => if down then (CNone, down, E_SHUTDOWN)
-                          else if err then (CDropped, down, E_CALLBACK)
+                          else if err then ((if hasdata then CDelivered else CDropped), down, E_CALLBACK)
                           else (CDelivered, down, E_NIL)
            | RManual => (CNone, down, E_NA)
            end
@@ -62,55 +67,62 @@ Definition attempt (rc : rcfg) (r : nat) (down err : bool) (o : op) : cres * boo
       if Nat.eqb r' r
       then if down then (CNone, true, E_SHUTDOWN)
            else match rk rc with
-                | RPeriodic => if err then (CDropped, true, E_CALLBACK) else (CDelivered, true, E_NIL)
+                | RPeriodic => if err then ((if hasdata then CDelivered else CDropped), true, E_CALLBACK)
+                               else (CDelivered, true, E_NIL)
                 | RManual => (CNone, true, E_NIL)
                 end
       else (CNone, down, E_NA)
   | _ => (CNone, down, E_NA)
   end.
 
+(** after an attempted collection a delta reader has nothing left to report; a cumulative one
+    keeps reporting what it has *)
+Definition next_ad (rc : rcfg) (ad : bool) : bool := if r_delta rc then false else ad.
+
 (** The measurements of instrument [i] grouped by the deliveries of reader [r].
     [lossy = false]: the property's reading - a collection whose delivery was skipped loses
     nothing, its measurements belong to the next delivery.
     [lossy = true]: the behaviour recorded as finding F-C02-1 - a skipped delivery of a delta
     reader swallows the measurements collected for it. *)
-Fixpoint cycles (lossy : bool) (rc : rcfg) (r : nat) (i : inst) (h : list op) (down err : bool)
+Fixpoint cycles (lossy : bool) (rc : rcfg) (r : nat) (i : inst) (h : list op) (down err ad : bool)
          (cur : list (skey * Z)) : list (list (skey * Z)) :=
   match h with
   | [] => []
-  | Add i' k v :: t => cycles lossy rc r i t down err (if Nat.eqb i' i then cur ++ [(k, v)] else cur)
-  | SetErr b :: t => cycles lossy rc r i t down b cur
+  | Add i' k v :: t => cycles lossy rc r i t down err true (if Nat.eqb i' i then cur ++ [(k, v)] else cur)
+  | SetErr b :: t => cycles lossy rc r i t down b ad cur
   | o :: t =>
-      match attempt rc r down err o with
-      | (CNone, down', _) => cycles lossy rc r i t down' err cur
-      | (CDelivered, down', _) => cur :: cycles lossy rc r i t down' err []
-      | (CDropped, down', _) => cycles lossy rc r i t down' err (if lossy && r_delta rc then [] else cur)
+      match attempt rc r down err ad o with
+      | (CNone, down', _) => cycles lossy rc r i t down' err ad cur
+      | (CDelivered, down', _) => cur :: cycles lossy rc r i t down' err (next_ad rc ad) []
+      | (CDropped, down', _) => cycles lossy rc r i t down' err (next_ad rc ad) (if lossy && r_delta rc then [] else cur)
       end
   end.
 
 (** measurements not yet delivered at the end of the history *)
-Fixpoint pending (lossy : bool) (rc : rcfg) (r : nat) (i : inst) (h : list op) (down err : bool)
+Fixpoint pending (lossy : bool) (rc : rcfg) (r : nat) (i : inst) (h : list op) (down err ad : bool)
          (cur : list (skey * Z)) : list (skey * Z) :=
   match h with
   | [] => cur
-  | Add i' k v :: t => pending lossy rc r i t down err (if Nat.eqb i' i then cur ++ [(k, v)] else cur)
-  | SetErr b :: t => pending lossy rc r i t down b cur
+  | Add i' k v :: t => pending lossy rc r i t down err true (if Nat.eqb i' i then cur ++ [(k, v)] else cur)
+  | SetErr b :: t => pending lossy rc r i t down b ad cur
   | o :: t =>
-      match attempt rc r down err o with
-      | (CNone, down', _) => pending lossy rc r i t down' err cur
-      | (CDelivered, down', _) => pending lossy rc r i t down' err []
-      | (CDropped, down', _) => pending lossy rc r i t down' err (if lossy && r_delta rc then [] else cur)
+      match attempt rc r down err ad o with
+      | (CNone, down', _) => pending lossy rc r i t down' err ad cur
+      | (CDelivered, down', _) => pending lossy rc r i t down' err (next_ad rc ad) []
+      | (CDropped, down', _) => pending lossy rc r i t down' err (next_ad rc ad) (if lossy && r_delta rc then [] else cur)
       end
   end.
 
 (** the return codes of the calls made on reader [r], in order *)
-Fixpoint codes (rc : rcfg) (r : nat) (h : list op) (down err : bool) : list N :=
+Fixpoint codes (rc : rcfg) (r : nat) (h : list op) (down err ad : bool) : list N :=
   match h with
   | [] => []
-  | SetErr b :: t => codes rc r t down b
+  | SetErr b :: t => codes rc r t down b ad
+  | Add _ _ _ :: t => codes rc r t down err true
   | o :: t =>
-      match attempt rc r down err o with
-      | (_, down', c) => (if (c =? E_NA)%N then [] else [c]) ++ codes rc r t down' err
+      match attempt rc r down err ad o with
+      | (x, down', c) => (if (c =? E_NA)%N then [] else [c]) ++
+                         codes rc r t down' err (match x with CNone => ad | _ => next_ad rc ad end)
       end
   end.
 
@@ -189,26 +201,51 @@ Fixpoint cum_totalb (sofar : list (skey * Z)) (cyc : list (list (skey * Z))) (ou
   | _, _ => false
   end.
 
-(** the sequential judgement of one stream: what the property says *)
+(** the history up to the first [Shutdown r] *)
+Fixpoint before_shutdown (r : nat) (h : list op) : option (list op) :=
+  match h with
+  | [] => None
+  | Shutdown r' :: t => if Nat.eqb r' r then Some [] else option_map (cons (Shutdown r')) (before_shutdown r t)
+  | o :: t => option_map (cons o) (before_shutdown r t)
+  end.
+
+(** "... through the final collection performed by Shutdown": once a periodic reader has been shut
+    down, everything recorded before that call has been delivered *)
+Definition final_ok (rc : rcfg) (r : nat) (i : inst) (h : list op) (outs : list points) : bool :=
+  match rk rc, before_shutdown r h with
+  | RPeriodic, Some pre =>
+      let a := adds_of i pre in
+      let ks := ckeys a ++ flat_map keys_of outs in
+      if r_delta rc then forallb (fun k => sum_outs k outs =? total k a) ks
+      else match rev outs with
+           | [] => match a with [] => true | _ => false end
+           | last :: _ => forallb (fun k => ovec_eqb (pget k last) (one (cyc_total k a))) ks
+           end
+  | _, _ => true
+  end.
+
+(** the sequential judgement of one stream: what the property says ([lossy = false]); with
+    [lossy = true] only what the deliveries that were made must contain *)
 Definition stream_ok (lossy : bool) (rc : rcfg) (r : nat) (i : inst) (h : list op) (outs : list points) : bool :=
-  let cyc := cycles lossy rc r i h false false [] in
-  if r_delta rc then delta_exactb cyc outs else cum_totalb [] cyc outs.
+  let cyc := cycles lossy rc r i h false false false [] in
+  (if r_delta rc then delta_exactb cyc outs else cum_totalb [] cyc outs) &&
+  (lossy || final_ok rc r i h outs).
 
 (** does the history contain the shape of finding F-C02-1 for this stream: a periodic delta
     reader skips a delivery (callback error) while measurements are waiting *)
-Fixpoint drops_pending (rc : rcfg) (r : nat) (i : inst) (h : list op) (down err : bool) (cur : list (skey * Z)) : bool :=
+Fixpoint drops_pending (rc : rcfg) (r : nat) (i : inst) (h : list op) (down err ad : bool) (cur : list (skey * Z)) : bool :=
   match h with
   | [] => false
-  | Add i' k v :: t => drops_pending rc r i t down err (if Nat.eqb i' i then cur ++ [(k, v)] else cur)
-  | SetErr b :: t => drops_pending rc r i t down b cur
+  | Add i' k v :: t => drops_pending rc r i t down err true (if Nat.eqb i' i then cur ++ [(k, v)] else cur)
+  | SetErr b :: t => drops_pending rc r i t down b ad cur
   | o :: t =>
-      match attempt rc r down err o with
-      | (CNone, down', _) => drops_pending rc r i t down' err cur
-      | (CDelivered, down', _) => drops_pending rc r i t down' err []
+      match attempt rc r down err ad o with
+      | (CNone, down', _) => drops_pending rc r i t down' err ad cur
+      | (CDelivered, down', _) => drops_pending rc r i t down' err (next_ad rc ad) []
       | (CDropped, down', _) =>
           (r_delta rc && match rk rc with RPeriodic => true | RManual => false end &&
            match cur with [] => false | _ => true end)
-          || drops_pending rc r i t down' err (if r_delta rc then [] else cur)
+          || drops_pending rc r i t down' err (next_ad rc ad) (if r_delta rc then [] else cur)
       end
   end.
 
